@@ -903,6 +903,27 @@ def m_format(I, recv, a, k, node, kind):
     return u
 
 
+def m_removeaffix(I, recv, a, k, node, kind):
+    """bytes/str.removesuffix / removeprefix: when the path knows the value ends (starts) with the argument this is
+    exactly the slice that cuts it off; otherwise the value may come back unchanged."""
+    meth = _mname(I, node)
+    if is_concrete(recv) and is_concrete(a[0]):
+        return getattr(concrete(recv), meth)(concrete(a[0]))
+    arg = a[0]
+    if isinstance(recv, Unk):
+        which = 'endswith' if meth == 'removesuffix' else 'startswith'
+        known = any(isinstance(f, tuple) and f[0] == which and f[1] == id(arg) and f[2] is True for f in recv.facts) or \
+            (is_concrete(arg) and any(isinstance(f, tuple) and f[0] == which + '-const' and f[1] == concrete(arg) for f in recv.facts)) or \
+            (meth == 'removesuffix' and is_concrete(arg) and getattr(recv, 'suffix', None) == concrete(arg))
+        if known:
+            n = b_len(I, [arg], {}, node)
+            if meth == 'removesuffix':
+                hi = -n if isinstance(n, int) else Unk('neg', kinds=['int'], taint=taint_of(n), src=('neg', n))
+                return M.slice_value(I, recv, ('slice', None, hi, None), node)
+            return M.slice_value(I, recv, ('slice', n, None, None), node)
+    return Unk('%s.%s' % (getattr(recv, 'name', 's'), meth), kinds=_k(recv), taint=tj(recv, *a), src=('method', recv, meth, a))
+
+
 def m_strsimple(I, recv, a, k, node, kind):
     if is_concrete(recv) and all(is_concrete(x) for x in a):
         try:
@@ -1369,6 +1390,7 @@ METHODS = {
     'strip': m_strip, 'lstrip': m_strip, 'rstrip': m_strip,
     'startswith': m_startswith, 'endswith': m_startswith, 'find': m_find, 'rfind': m_find, 'index': m_index,
     'join': m_join, 'format': m_format,
+    'removesuffix': m_removeaffix, 'removeprefix': m_removeaffix,
     'lower': m_strsimple, 'upper': m_strsimple, 'replace': m_strsimple, 'splitlines': m_strsimple,
     'count': m_strsimple, 'isdigit': m_strsimple, 'isspace': m_strsimple, 'isalnum': m_strsimple,
     'isdecimal': m_strsimple, 'isnumeric': m_strsimple, 'title': m_strsimple, 'partition': m_strsimple,
